@@ -205,11 +205,12 @@ var plans = map[string]Plan{
 	},
 	"C16": {
 		Level: "fault_enumeration",
-		Rule: "cases are script sets for 1-3 scripted fake plugins (own framing / envelopes via internal/refcodec) run by the real thriftrw binary: per protocol step (handshake, generate, goodbye) x fault kind (ok, wrong name, wrong API version, feature missing, missing field, exception envelope, wrong envelope type, garbage frame, raw garbage, truncation at every byte offset of the reply frame, oversized length prefix, exit before read / after read / after reply) x write mode (whole, bytewise, drawn segments with pauses) x exit status x linger. Complete grids: truncation (210), fault (126), pairs (1764, thorough); random scripts; the public plugin.Main driven over a segmented byte stream. " +
-			"Oracle (history checking): each plugin's event trace is accepted by the protocol automaton; generate only after a conforming handshake; exactly one goodbye to every conforming plugin still reading; every started plugin saw EOF and exited before the host; host exit status != 0 iff some plugin failed, and then stderr names it. " +
+		Rule: "cases are script sets for 1-3 scripted fake plugins (own framing / envelopes via internal/refcodec) run by the real thriftrw binary: per protocol step (handshake, generate, goodbye) x fault kind (ok, wrong name, wrong API version, feature missing, missing field, exception envelope, wrong envelope type, garbage frame, raw garbage, truncation at every byte offset of the reply frame, oversized length prefix, exit before read / after read / after reply) x write mode (whole, bytewise, drawn segments with pauses) x advertised feature list of a conforming handshake ([SERVICE_GENERATOR], empty, only values the host does not know such as [2] / [0] / [7,9], those next to SERVICE_GENERATOR, repetitions) x exit status x linger. Complete grids: truncation (210), fault (162), pairs (2916, thorough); random scripts; the public plugin.Main driven over a segmented byte stream. " +
+			"Oracle (history checking): each plugin's event trace is accepted by the protocol automaton; generate only after a conforming handshake whose feature list contains SERVICE_GENERATOR; exactly one goodbye to every conforming plugin still reading; every started plugin saw EOF and exited before the host; host exit status != 0 iff some plugin failed, and then stderr names it. " +
 			"Non-trivial: >=1 deviation or >=2 plugins. Distinct: SHA-256 of the script set.",
 		Assumptions: []string{
 			"which fault kinds make a plugin 'failed' is fixed by harness/fplab.IsFailure (everything except ok, feature-missing, segmented writes, linger, exit-after-goodbye-reply)",
+			"a handshake advertising unknown feature values (alone or next to SERVICE_GENERATOR) is a conforming handshake, not a failure; only the 'only after' direction of the gate is asserted (whether generate is sent to an advertising plugin is C17's business)",
 			"one O_APPEND event log gives the global order of plugin events and the host-exit marker; 60 s ceiling (x2) for hangs",
 		},
 		Prebuild: []Prebuild{{Name: "thriftrw", Pkg: "go.uber.org/thriftrw"}, {Name: "fakeplugin", Pkg: "verif/harness/fakeplugin"}, {Name: "libplugin", Pkg: "verif/harness/libplugin"}},
